@@ -86,7 +86,10 @@ impl Scratch {
         s.replace("@DIR@", self.dir.to_str().unwrap()).replace("@REPO@", repo_dir().to_str().unwrap())
     }
     pub fn unsubst(&self, s: &str) -> String {
-        s.replace(self.dir.to_str().unwrap(), "@DIR@").replace(repo_dir().to_str().unwrap(), "@REPO@")
+        // panic locations name the instrumented copy the simulator was built from
+        s.replace(self.dir.to_str().unwrap(), "@DIR@")
+            .replace(repo_dir().to_str().unwrap(), "@REPO@")
+            .replace(verif_dir().join("run/vrl-instr").to_str().unwrap(), "@REPO@")
     }
 }
 
